@@ -47,7 +47,18 @@ pub open spec fn wraps(r: AExpr, pre: Seq<Bind>, o: AExpr) -> bool { binds(r) ==
 // condition / scrutinee before (and outside) the branches, the branches themselves only inside the conditional, a loop's condition and body
 // inside the loop.  In A-normal form "evaluated" means: named by a `let` of the prefix (or an immediate, which has no effect), so the order
 // of the prefix IS the evaluation order.   nb = how many lets normalising e emits (fixes where each operand's lets sit in the prefix).
-pub open spec fn src_imm(e: LiftExpr) -> bool { e is EVar || e is EPrim }
+// WHICH operands are used without a let is the code's policy (anf_imm's direct arms, read off the code on every run as `imm_direct`); the property only demands
+// that such an operand is an effect-free atom and that the immediate denotes it: lemma imm_direct_sound
+pub open spec fn src_imm(e: LiftExpr) -> bool { imm_direct(e) is Some }
+pub open spec fn atom_imm(e: LiftExpr, i: ImmExpr) -> bool {
+    match e {
+        LiftExpr::EVar { name, ty } => i == (ImmExpr::ImmVar { name, ty }),
+        LiftExpr::EPrim { value, ty } => i == (ImmExpr::ImmPrim { value, ty }),
+        LiftExpr::EConstr { constructor: Constructor::Enum(ec), args, ty } => args@.len() == 0 && (i matches ImmExpr::ImmTag { index, ty: t2 } && index == ec.index_of() && t2 == ty),
+        _ => false,
+    }
+}
+pub proof fn imm_direct_sound(e: LiftExpr) ensures imm_direct(e) matches Some(i) ==> atom_imm(e, i) {}
 pub open spec fn nb(e: LiftExpr) -> nat decreases e, 0int {
     match e {
         LiftExpr::EVar { .. } => 0,
@@ -119,13 +130,12 @@ pub open spec fn nc(e: LiftExpr, pre: Seq<Bind>, c: CExpr) -> bool decreases e, 
         LiftExpr::EProj { tuple, index, ty } => c matches CExpr::EProj { tuple: x, index: i2, ty: t2 } && i2 == index && t2 == ty && ni(*tuple, pre, *x),
     }
 }
-// ni(e, pre, imm): a variable or literal is used as it is (no let); anything else is normalised and its final step bound LAST to a name
+// ni(e, pre, imm): an operand the policy uses directly (today: a variable or literal) is used as it is (no let); anything else is normalised and its final step bound LAST to a name
 // that `imm` then is — so an operand is evaluated exactly once, where it stands
 pub open spec fn ni(e: LiftExpr, pre: Seq<Bind>, imm: ImmExpr) -> bool decreases e, 1int {
-    match e {
-        LiftExpr::EVar { name, ty } => pre.len() == 0 && imm == (ImmExpr::ImmVar { name, ty }),
-        LiftExpr::EPrim { value, ty } => pre.len() == 0 && imm == (ImmExpr::ImmPrim { value, ty }),
-        _ => pre.len() >= 1 && nc(e, pre.drop_last(), pre.last().1) && (imm matches ImmExpr::ImmVar { name, ty } && name@ == pre.last().0 && ty == lift_ty(e)),
+    match imm_direct(e) {
+        Some(i) => pre.len() == 0 && imm == i,
+        None => pre.len() >= 1 && nc(e, pre.drop_last(), pre.last().1) && (imm matches ImmExpr::ImmVar { name, ty } && name@ == pre.last().0 && ty == lift_ty(e)),
     }
 }
 // the operands es[i..], left to right
